@@ -170,18 +170,21 @@ class _Recorder:
         def choice(a, size=None, replace=True, p=None):
             if p is not None:
                 raise RuntimeError("recorder: choice with p is not expected")
-            if replace:
-                out = orig["choice"](a, size, True)
-                hist.append(["choice", int(a), int(size), [int(v) for v in out]])
+            if np.ndim(a) == 0:
+                out = orig["choice"](a, size, replace)
+                hist.append(["choice" if replace else "choice_norepl", int(a), int(np.size(out)) if size is None else int(size),
+                             [int(v) for v in np.atleast_1d(out)]])
                 return out
+            # choice over an array: record the chosen positions (same stream as choice(len(a), ...))
             arr = np.asarray(a)
             state = rnd.get_state()
-            direct = orig["choice"](arr, size, False)
+            direct = orig["choice"](arr, size, replace)
             rnd.set_state(state)
-            idx = orig["choice"](len(arr), size, False)
+            idx = orig["choice"](len(arr), size, replace)
             if not np.array_equal(direct, arr[idx]):
                 raise RuntimeError("recorder: choice(a) != a[choice(len(a))]")
-            hist.append(["choice_norepl", int(len(arr)), int(size), [int(v) for v in idx]])
+            hist.append(["choice" if replace else "choice_norepl", int(len(arr)), int(np.size(idx)) if size is None else int(size),
+                         [int(v) for v in np.atleast_1d(idx)]])
             return direct
 
         def normal(loc=0.0, scale=1.0, size=None):
